@@ -422,7 +422,7 @@ fn draw_mine(sw: &Swarm, w: &World, rng: &mut Rng) -> Event {
         Mutation::None
     };
     // TimeMtp(1) and TimeFuture(<=0) are valid headers: label them as unmutated for the model.
-    let special = if sw.many_outputs && rng.chance(1, 10) {
+    let special = if sw.many_outputs && rng.chance(1, if w.cfg.profile == "C06" { 5 } else { 10 }) {
         Special::ManyOutputs {
             n: *rng.pick(&[5u16, 40, 260, 300, 1100]),
             to: rng.below(6) as u8,
@@ -715,15 +715,6 @@ pub fn draw_config_change(sw: &Swarm, w: &World, rng: &mut Rng) -> ConfigSpec {
         _ => {
             // threshold up and down mid-history
             c.threshold = Some(*rng.pick(&[1u32, 1, 2, 3, 4, 6, 10]));
-        }
-    }
-    // Changing the threshold while a block is mid-ingestion is part of C03's quantifier only
-    // (there it exposes a known finding); other profiles do not quantify over it.
-    if profile != "C03" && w.ingest_rounds > 0 {
-        if let Some(t) = c.threshold {
-            if t > w.threshold {
-                c.threshold = Some(w.threshold);
-            }
         }
     }
     let _ = sw;
